@@ -28,7 +28,7 @@ fn strip_volatile(v: &mut Value) {
 }
 
 pub fn run(p: &Params, rep: &mut Report) {
-    rep.rule = "final states of seeded op-histories (removals -> gaps, protect_text, all selector kinds, id-less items) are saved with a .cbor name and loaded again; compared: the hooked dump of every store, id map, reverse index and position index entry by entry, the full canonical observation WITH handles and all reverse lookups, segmentation/find_text/related_text answers, and the STAM JSON serialisation of both stores under an explicit JSON config. distinct_nontrivial = distinct (store shape, has-gaps, shrink_to_fit on load) tuples".into();
+    rep.rule = "final states of seeded op-histories (removals -> gaps, protect_text, all selector kinds, id-less items) are saved with a .cbor name and loaded again; compared: the hooked dump of every store, id map, reverse index and position index entry by entry, the full canonical observation WITH handles and all reverse lookups, segmentation/find_text/related_text answers, the rows of 8 seeded queries per store, and the STAM JSON serialisation of both stores under an explicit JSON config. distinct_nontrivial = distinct (store shape, has-gaps, shrink_to_fit on load) tuples".into();
     rep.assumptions = vec!["`changed` flags, the serialize-mode cell and the caller-supplied debug/shrink_to_fit settings are run-time state and excluded from the dump comparison".into()];
     let total: u64 = if p.thorough { 10000 } else { 400 };
     for k in p.cases(total) {
@@ -135,6 +135,24 @@ pub fn run(p: &Params, rep: &mut Report) {
             (Ok(Ok(_)), Ok(Err(e))) => rep.violation("C11/json-of-loaded-store-fails", json!({"error": format!("{}", e), "history": h.replay_json()})),
             (Ok(Ok(_)), Err(pn)) => rep.violation(format!("C11/json-of-loaded-store-panics/{}", pn.class()), json!({"panic": pn.msg, "history": h.replay_json()})),
             _ => {}
+        }
+        // (5) queries: the same rows (handles included) from both stores
+        {
+            let pl = crate::c08::pool(&h.store, &mut rng);
+            for _ in 0..8 {
+                let rt = *rng.pick(&crate::c08::RTS[..]);
+                let n = rng.range(1, 2);
+                let q = crate::c08::QS::new(rt, (0..n).map(|_| crate::c08::gen_cs(&mut rng, &pl, true)).collect());
+                let (a, b) = (crate::c08::eval(&h.store, &q), crate::c08::eval(&loaded, &q));
+                rep.eval();
+                if a != b {
+                    rep.violation("C11/query-answers-differ".to_string(), json!({"query": q.describe(), "saved": format!("{:?}", a).chars().take(400).collect::<String>(), "loaded": format!("{:?}", b).chars().take(400).collect::<String>(), "history": h.replay_json()}));
+                    break;
+                }
+                if matches!(a, crate::c08::Out::Rows(ref r) if !r.is_empty()) {
+                    rep.count("query-answers-compared-nonempty");
+                }
+            }
         }
         if k % 67 == 0 {
             rep.sample(json!({"case": k, "history": h.replay_json(), "gaps": gaps, "shrink_on_load": shrink}));
